@@ -109,6 +109,7 @@ structure Draw (ν : Type) where
   scale : ν                  -- sqrt |det m|
   closed : Bool              -- the transformed path data ends with a close command
   pid : Nat                  -- identity of (path, m)
+  outlineEmpty : Bool        -- Stroke(Dash(path, ScaleDash …)) is the empty path (the path lies in a dash gap)
 
 section Style
 variable {ν : Type} (N : Num ν)
@@ -338,7 +339,7 @@ def pdfDraw (d : Draw ν) : PAct ν :=
     else say []
   else
     PAct.seq ((if hf then [setFill d.fill, say [p, .paint (fillK d.evenOdd)]] else []) ++
-      [setFill d.stroke, say [.path (.outline d.pid), .paint .f]])
+      (if d.outlineEmpty then [] else [setFill d.stroke, say [.path (.outline d.pid), .paint .f]]))
 
 /-- a program: every draw's operators, threading the cache -/
 def pdfProg : List (Draw ν) → PW ν → PW ν × List (List (POp ν))
@@ -478,6 +479,7 @@ def refPaint (jok : Bool) (nd : List ν → List ν) (np : ν → List ν → ν
     (if d.native jok then
       [Painted.stroke [.orig d.pid] d.closed (shadeOf d.stroke) d.stroke.alpha (d.w' N jok) d.cap (joinCode d.join)
         (joinLimit d.join) (nd (d.dashes' N jok)) (np (d.off' N jok) (d.dashes' N jok))]
+    else if d.outlineEmpty then []            -- an empty outline paints nothing
     else [Painted.fill [.outline d.pid] false (shadeOf d.stroke) d.stroke.alpha])
   else [])
 
@@ -579,7 +581,7 @@ def psDraw (d : Draw ν) : SAct ν :=
       (if nat then
         [setPaint d.stroke, psSetLineWidth N (d.w' N jok), psSetLineCap d.cap, psSetLineJoin N d.join,
          psSetDashes N (d.off' N jok) (d.dashes' N jok), ssay [.stroke]]
-      else [ssay [.path (.outline d.pid)], setPaint d.stroke, ssay [.fill]])
+      else (if d.outlineEmpty then [] else [ssay [.path (.outline d.pid)]]) ++ [setPaint d.stroke, ssay [.fill]])
      else []))
 
 def psProg : List (Draw ν) → SW ν → SW ν × List (List (SOp ν))
